@@ -44,6 +44,33 @@ class C07(Property):
             cases.append(Case("dec9 " + hexs(data), tags=(tag,)))
         for f, d in bundled()[: (6 if tier == "quick" else 1000)]:
             cases.append(Case("dec9 " + hexs(d), tags=("bundled",)))
+        # a [Variables] section in front of [Events] whose lines use the variables (every decoder reads the event lines verbatim: seed
+        # C07-s resolved them in the full decoder only), and bare key lines without a colon after an earlier definition of the same key
+        # (a bare valid key clears the value in every decoder alike: seed C07-t dropped such lines in the full decoder only)
+        for _ in range(60 if tier == "quick" else 2000):
+            var = rng.choice(['$bg="backdrop.jpg"', "$bg=backdrop.jpg", "$end=2500", "$t=1000", "$x=2,1000,2500", "$=", "$a=$b"])
+            ev = rng.choice(["0,0,$bg,0,0", "2,1000,$end", "2,$t,$end", "$x", 'Video,0,"$bg"', "Sprite,Background,Centre,$bg,320,240", '0,0,"bg$end.jpg"'])
+            text = ("osu file format v14\n\n[Variables]\n" + var + "\n$end=2500\n$t=1000\n\n[Events]\n" + ev + "\n2,3000,4000\n\n"
+                    "[TimingPoints]\n0,400,4,1,0,100,1,0\n\n[HitObjects]\n64,64,500,1,0,0:0:0:0:\n64,64,5000,1,0,0:0:0:0:\n")
+            if rng.random() < 0.3:
+                text = text.replace("[Variables]", "[Events]\n0,0,first.png\n\n[Variables]")
+            cases.append(Case("dec9 " + hexs(text.encode()), tags=("variables-used-in-events",)))
+        BARE = {"General": [("AudioFilename", "audio.mp3"), ("SampleSet", "Soft"), ("Mode", "3"), ("PreviewTime", "1234"), ("Countdown", "2")],
+                "Editor": [("Bookmarks", "1000,2000,3000"), ("DistanceSpacing", "1.5"), ("GridSize", "8")],
+                "Metadata": [("Source", "Touhou"), ("Title", "t"), ("Tags", "a b"), ("BeatmapID", "77")],
+                "Difficulty": [("CircleSize", "7"), ("SliderMultiplier", "2")],
+                "Colours": [("Combo1", "1,2,3"), ("SliderBorder", "4,5,6"), ("Custom", "7,8,9")]}
+        for _ in range(80 if tier == "quick" else 3000):
+            sec = rng.choice(list(BARE))
+            k, v = rng.choice(BARE[sec])
+            form = rng.choice(["{k}", "{k} ", " {k}", "{k}\t", "{k} // c", "{k}", "{k}:"])
+            lines = [f"{k}: {v}", form.format(k=k)]
+            if rng.random() < 0.4:
+                lines.append(f"{rng.choice(BARE[sec])[0]}")
+            if rng.random() < 0.3:
+                lines.insert(1, rng.choice(["// comment", "", f"{k} : {v}"]))
+            text = "osu file format v14\n\n[General]\nMode: 1\n\n[" + sec + "]\n" + "\n".join(lines) + "\n\n[TimingPoints]\n0,400,4,1,0,100,1,0\n\n[HitObjects]\n64,64,500,1,0,0:0:0:0:\n"
+            cases.append(Case("dec9 " + hexs(text.encode()), tags=("bare-key-line",)))
         # files whose first line is indented (no version line, a section header behind blanks / a tab): what opens the first
         # section depends on the first column, for every decoder and every entry point alike (seed C07-l)
         for _ in range(40 if tier == "quick" else 1500):
